@@ -63,6 +63,9 @@ PLAN = {
             {"monitor": "c03_hist", "variant": "rel", "shards": 16},
             {"monitor": "c03_hist", "variant": "dbg", "shards": 16},
             {"monitor": "c03_hist", "variant": "pointer", "shards": 8},
+            # add_vars / add_named_vars / add_named_vars_from_map / rejected calls: num_vars == num_levels, maps inverse, handles intact
+            {"monitor": "c16_mgr", "variant": "rel", "shards": 16},
+            {"monitor": "c16_mgr", "variant": "pointer", "shards": 8},
             # concurrent bubble sort of set_var_order (>= 65536 nodes, 4 workers): full audit after each reordering
             {"monitor": "c08_large", "variant": "rel", "shards": {"quick": 4, "thorough": 16}, "parallel": 4},
         ],
@@ -83,6 +86,7 @@ PLAN = {
             {"monitor": "c05_hist", "variant": "dbg", "shards": 16},
             {"monitor": "c05_bg", "variant": "rel", "shards": 16},
             {"monitor": "c05_probe", "variant": "rel", "shards": 16},
+            {"monitor": "c05_probe_large", "variant": "rel", "shards": 4},
             {"monitor": "c05_probe", "variant": "dbg", "shards": 8},
             {"monitor": "c05_mtbdd_terminals", "variant": "rel", "shards": 8},
             {"monitor": "c05_mtbdd_terminals", "variant": "dbg", "shards": 4},
@@ -153,7 +157,11 @@ PLAN = {
             {"monitor": "c04_rand", "variant": "dbg", "shards": 8},
             {"monitor": "c04_rand", "variant": "st", "shards": 8},
             {"monitor": "c04_defaults", "variant": "rel", "shards": 6},
+            # restrict on MTBDDs (sparse functions, negative literals on skipped levels)
+            {"monitor": "c10_dd", "variant": "rel", "shards": 16},
             {"monitor": "c04_deep", "variant": "rel", "shards": 16},
+            {"monitor": "c04_api", "variant": "rel", "shards": 6},
+            {"monitor": "c04_api", "variant": "st", "shards": 6},
             {"monitor": "c04_wide", "variant": "rel", "shards": 8},
             {"monitor": "c04_wide", "variant": "dbg", "shards": 8},
             # substitutions created concurrently must get distinct ids (the id is the apply-cache key)
@@ -175,6 +183,8 @@ PLAN = {
             {"monitor": "c09_rand", "variant": "rel", "shards": 16},
             {"monitor": "c09_rand", "variant": "dbg", "shards": 8},
             {"monitor": "c09_rand", "variant": "st", "shards": 8},
+            {"monitor": "c09_api", "variant": "rel", "shards": 6},
+            {"monitor": "c09_api", "variant": "st", "shards": 6},
             {"monitor": "c09_deep", "variant": "rel", "shards": 16},
             {"monitor": "c09_deep", "variant": "dbg", "shards": 8, "tiers": ("thorough",)},
         ],
@@ -215,6 +225,7 @@ PLAN = {
             {"monitor": "c11_exh", "variant": "rel", "shards": 16},
             {"monitor": "c11_rand", "variant": "rel", "shards": 16},
             {"monitor": "c11_rand", "variant": "st", "shards": 8},
+            {"monitor": "c11_rand", "variant": "pointer", "shards": 8},
             {"monitor": "c11_rand", "variant": "dbg", "shards": 8},
         ],
         "require_counters": {"all": ["pairs", "triples"]},
@@ -315,6 +326,8 @@ PLAN = {
             {"monitor": "c07_stress", "variant": "rel", "shards": 16, "parallel": 4, "nondeterministic": True},
             {"monitor": "c07_stress", "variant": "dbg", "shards": 8, "parallel": 4, "nondeterministic": True},
             {"monitor": "c07_stress", "variant": "pointer", "shards": 8, "parallel": 4, "nondeterministic": True},
+            # substitutions created on several threads at once (ids are apply-cache keys)
+            {"monitor": "c06_subst_ids", "variant": "rel", "shards": 2, "nondeterministic": True},
             {"monitor": "c07_stress", "variant": "tsan", "shards": 8, "parallel": 4, "nondeterministic": True},
             {"monitor": "c07_stress", "variant": "asan", "shards": 8, "parallel": 4, "nondeterministic": True, "tiers": ("thorough",)},
             {"monitor": "c07_tiny", "variant": "tsan", "shards": 16, "nondeterministic": True},
@@ -443,6 +456,7 @@ PLAN = {
             # >= 65536 nodes on 4 workers: the concurrent paths of set_var_order, on both node stores
             {"monitor": "c08_large", "variant": "rel", "shards": 2, "parallel": 2},
             {"monitor": "c08_large", "variant": "pointer", "shards": 2, "parallel": 2},
+            {"monitor": "c11_rand", "variant": "pointer", "shards": 8},
         ],
         "require_counters": {"all": ["histories", "suites", "digests_compared_across_variants"]},
     },
@@ -462,9 +476,14 @@ PLAN = {
             {"monitor": "c08_large", "variant": "rel", "shards": {"quick": 4, "thorough": 16}, "parallel": 4},
             {"monitor": "c08_large", "variant": "dbg", "shards": {"quick": 2, "thorough": 8}, "parallel": 4},
             {"monitor": "c08_large", "variant": "tsan", "shards": 2, "parallel": 2, "tiers": ("thorough",)},
+            # MTBDD and TDD: reorderings with live nodes inside their history monitors (tables unchanged, exact
+            # node counts for the new order / rebuilt function identical, audit); TDD also on the pointer-based manager
+            {"monitor": "c10_dd", "variant": "rel", "shards": 16},
+            {"monitor": "c11_rand", "variant": "rel", "shards": 16},
+            {"monitor": "c11_rand", "variant": "pointer", "shards": 8},
             {"monitor": "c08_rand", "variant": "dbg", "shards": 16},
         ],
-        "require_counters": {"all": ["reorder_cases", "gcs_that_freed", "concurrent_sort_preconditions_met", "large_reorderings"]},
+        "require_counters": {"all": ["reorder_cases", "gcs_that_freed", "concurrent_sort_preconditions_met", "large_reorderings", "reorderings_with_live_nodes", "concurrent_reorderings_moving_an_odd_number_of_levels"]},
     },
     "C02": {
         "level": "exploration",
@@ -474,7 +493,8 @@ PLAN = {
                 "{bdd,bcdd,zbdd} x 6 variable orders x threads {1,4}; n=4..8 random operands (split depth 0/1/2/MAX, eval with "
                 "shuffled / repeated / omitted arguments); single-threaded function types (variant st); 13..16-variable dense "
                 "operands on 2..8 workers with the automatic split depth; managers with 31..200 variables and functions over 6 "
-                "scattered active ones, evaluated on assignments of all variables. distinct = distinct "
+                "scattered active ones, evaluated on assignments of all variables; every `*_edge` entry point of the shipped types "
+                "and every trait default of BooleanFunction on types with only the required methods. distinct = distinct "
                 "(kind, operator, operand tables, order, threads) tuples whose result is not constant.",
         "assumptions": ["truth-table model in harness/src/tt.rs is the specification",
                         "exhaustive only for 3 variables; larger n sampled from VERIF_SEED"],
@@ -490,6 +510,9 @@ PLAN = {
             # automatic split depth: parallel -> sequential hand-over in the middle of an operation
             {"monitor": "c02_deep", "variant": "rel", "shards": 16},
             # 31..200 variables: bit-set word boundaries in eval / pick_cube / level maps
+            # edge-level entry points of the shipped types + trait defaults on types with only the required methods
+            {"monitor": "c02_api", "variant": "rel", "shards": 6},
+            {"monitor": "c02_api", "variant": "st", "shards": 6},
             {"monitor": "c02_wide", "variant": "rel", "shards": 8},
             {"monitor": "c02_wide", "variant": "dbg", "shards": 8},
             {"monitor": "c02_deep", "variant": "dbg", "shards": 8, "tiers": ("thorough",)},
